@@ -91,7 +91,7 @@ def check(ctx):
         "skip_if": "self.skip_if is not None and self.skip_if(value)",
         "undefined": "self.undefined and value is Undefined",
         "skip_none": "self.skip_none and value is None",
-        "skip_default": "self.skip_default and value == self.default_value",
+        "skip_default": "self.skip_default and self.default_value == value",  # canonical operand order (sa/canon.py)
     }
     for flag, frag in pairs.items():
         ctx.check(frag in text, "C04.R2c", f"ComplexField.update_result:{flag}", ur.node.body[0],
